@@ -114,6 +114,48 @@ def check(ctx):
                          % (s.kind, s.what, panic_mode), [START if k == g else k, "connection-thread", s.kind, s.what])
         if n_src == 0:
             ctx.ok(R1, "closure %s (+%d reachable workspace bodies): 0 panic sources" % (g, len(reach) - 1))
+    # R5: a connection thread holds no lock while it waits for its client — a stalled client must not block the other connections
+    R5 = ctx.rule("R5", "no lock guard (Mutex/RwLock, std or other) is alive across the blocking TLS handshake of a connection thread")
+    GUARDS = ("MutexGuard<", "RwLockReadGuard<", "RwLockWriteGuard<", "MappedMutexGuard<", "ReentrantLockGuard<")
+    n_hs = 0
+    for sp, g in spawn_closures:
+        for k in sorted(prog.reach([g])):
+            if prog.absorbed(k):
+                continue
+            b = prog.body(k)
+            if b.crate not in ("tacd", "acme_common"):
+                continue
+            hs = b.calls_to("*SslAcceptor::accept")
+            n_hs += len(hs)
+            if not hs:
+                continue
+            held = []
+            for l, d in enumerate(b.locals):
+                if not any(gname in d["ty"] for gname in GUARDS):
+                    continue
+                defs = [bb for kind, bb, j, x in b.defs.get(l, [])]
+                ends = set()
+                for i in b.live_blocks():
+                    t = b.term(i)
+                    if t["t"] == "drop" and t["place"]["l"] == l and not t["place"]["p"]:
+                        ends.add(i)
+                    if t["t"] == "call" and any(op_local(a) == l and "move" in a for a in t.get("args", [])):
+                        ends.add(i)
+                    for st in b.blocks[i]["stmts"]:
+                        if st["s"] == "dead" and st["l"] == l:
+                            ends.add(i)
+                        if st["s"] == "assign" and st["rv"]["k"] == "use" and "move" in st["rv"]["op"] and op_local(st["rv"]["op"]) == l:
+                            ends.add(i)
+                for dbb in defs:
+                    after = b.reachable_after(dbb, removed_nodes=sorted(ends))
+                    for h in hs:
+                        if h.bb in after:
+                            held.append((l, d["ty"], h))
+            for l, ty, h in held:
+                ctx.fail(R5, h.where(), "the handshake runs while a `%s` is alive: one client that stalls blocks every other connection" % ty[:80], [START, "guard-across-handshake"])
+            if not held:
+                ctx.ok(R5, "%s: no guard-typed local alive at the handshake" % k)
+    ctx.floor(R5, "handshake sites examined for held guards", n_hs, 2)
     ctx.require(R4, handshake_in_closure >= 2, START, "SslAcceptor::accept call inside each spawned closure (found %d)" %
                 handshake_in_closure, [START, "accept-count"])
     ctx.assumptions.append("openssl::ssl::SslAcceptor::accept returns Err (does not panic) on a failed handshake; "
